@@ -245,9 +245,9 @@ pub mod isa {
     pub use super::arch::wasm32::Wasm32Isa;
 }
 
-pub use dispatch::{SimdOp, SimdUnaryOp};
 #[cfg(rten_verif)]
 pub use dispatch::verif;
+pub use dispatch::{SimdOp, SimdUnaryOp};
 pub use elem::Elem;
 pub use float16::f16;
 pub use iter::{Iter, SimdIterable};
